@@ -64,12 +64,19 @@ def make_func(fvals, kind, calls):
 
 
 class TModel(Model):
-    def __init__(self, n, fvals, kind, calls, pcalls):
+    def __init__(self, n, fvals, kind, calls, pcalls, pkind=None, ukind=None):
         self.names = ["x", "y"]
         self.bounds = {"x": [0.0, float(max(n, 1))], "y": [0.0, 1.0]}
         self._f = make_func(fvals, kind, calls)
-        self._p = make_func([(v % 7) for v in fvals], kind, pcalls)
+        self._p = make_func([(v % 7) for v in fvals], pkind or kind, pcalls)
+        self._u = make_func([(v % 5) for v in fvals], ukind or kind, pcalls)
         self._n = n
+
+    def log_prior_unit_hypercube(self, x):
+        # a user-supplied unit-hypercube prior: defined on the unit cube, looked up at the mapped point
+        y = x.copy()
+        y["x"] = x["x"] * max(self._n, 1)
+        return self._u(y)
 
     def log_prior(self, x):
         return self._p(x)
@@ -123,12 +130,13 @@ def run_case(c):
         return {"out": out, "ref": ref, "calls": calls, "pool_sizes": pool.sizes if pool else None}
     if kind == "model":
         calls, pcalls = [], []
-        m = TModel(c["n"], c["fvals"], c["fkind"], calls, pcalls)
+        m = TModel(c["n"], c["fvals"], c["fkind"], calls, pcalls, c.get("pkind"), c.get("ukind"))
         m.likelihood_chunksize = c["chunksize"] or None
         m.parallelise_prior = bool(c.get("parallelise_prior"))
         if c["vect_mode"] == "force_true":
             m.vectorised_likelihood = True
             m.vectorised_prior = True
+            m.vectorised_prior_unit_hypercube = True
         elif c["vect_mode"] == "force_false":
             m.allow_vectorised = False
             m.allow_vectorised_prior = False
@@ -140,10 +148,10 @@ def run_case(c):
         elif c["pool"] == "real":
             m.configure_pool(n_pool=c["n_pool"])
         x = points(c["n"])
-        if c.get("unit"):
+        if c.get("unit") or c["which"] == "prior_uh":
             x = m.to_unit_hypercube(x)
         # settle the vectorisation probe before counting
-        _ = m.vectorised_likelihood, m.vectorised_prior
+        _ = m.vectorised_likelihood, m.vectorised_prior, m.vectorised_prior_unit_hypercube
         before = m.likelihood_evaluations
         ncalls0 = len(calls)
         try:
@@ -153,6 +161,9 @@ def run_case(c):
             elif c["which"] == "single":
                 out = np.array([m.evaluate_log_likelihood(xx) for xx in x]).flatten() if c["n"] else np.array([])
                 ref = [float(c["fvals"][i]) for i in range(c["n"])]
+            elif c["which"] == "prior_uh":
+                out = m.batch_evaluate_log_prior_unit_hypercube(x)
+                ref = [float(c["fvals"][i] % 5) for i in range(c["n"])]
             else:
                 out = m.batch_evaluate_log_prior(x, unit_hypercube=bool(c.get("unit")))
                 ref = [float(c["fvals"][i] % 7) for i in range(c["n"])]
